@@ -101,7 +101,26 @@ def main():
         for d in sorted(glob.glob(root + "/C??/[123]")):
             prop, k = d.split("/")[-2], int(d.split("/")[-1])
             later[f"{prop}/{k + 3 * (rnd - 1)}"] = d
-    for key in sorted(list(NEEDS) + list(later)):
+    import concurrent.futures as cf
+    keys = sorted(list(NEEDS) + list(later))
+
+    def prep(key):
+        prop, k = key.split("/")
+        src = later.get(key, f"/tmp/seed_out/{prop}/{k}")
+        cj = os.path.join(src, "confirm.json")
+        if not os.path.exists(cj) or not json.load(open(cj)).get("ok"):
+            return key, None
+        sid = f"{prop}-{k}"
+        dst = os.path.join(out_root, sid)
+        os.makedirs(dst, exist_ok=True)
+        for fn in ("patch.diff", "demo.py", "notes.md"):
+            if os.path.exists(os.path.join(src, fn)):
+                shutil.copy(os.path.join(src, fn), os.path.join(dst, fn))
+        return key, seedeval.run(dst)
+
+    with cf.ThreadPoolExecutor(7) as ex:
+        evals = dict(ex.map(prep, keys))
+    for key in keys:
         prop, k = key.split("/")
         src = later.get(key, f"/tmp/seed_out/{prop}/{k}")
         cj = os.path.join(src, "confirm.json")
@@ -117,7 +136,7 @@ def main():
         for fn in ("patch.diff", "demo.py", "notes.md"):
             if os.path.exists(os.path.join(src, fn)):
                 shutil.copy(os.path.join(src, fn), os.path.join(dst, fn))
-        det = seedeval.run(dst)
+        det = evals.get(key) or seedeval.run(dst)
         caught = {p: v["keys"] for p, v in det.items() if isinstance(v, dict) and v.get("rc") == 1}
         errors = {p: v.get("tail", "")[-200:] for p, v in det.items() if isinstance(v, dict) and v.get("rc") == 2}
         what, needs = NEEDS[key] if key in NEEDS else from_notes(src)
